@@ -163,6 +163,7 @@ def strip_scenario(sc):
     for lst in ("holds", "faults"):
         for h in sc.get(lst, []) or []:
             h.pop("_used", None)
+            h.pop("_seen", None)
     return sc
 
 
